@@ -147,6 +147,10 @@ def run(tier):
         n = classdom.cursor_pushes(rep, F, EB, B, "content-push-class", forbid, "only content characters may be copied from the input into a scalar")
         rep.extra.setdefault("class_pass", {})[str(B)] = {"contexts": EB.contexts, "cursor_push_sites": n}
         rep.floor("cursor-character push sites (B=%d)" % B, n, 8)
+    # line folding of plain and quoted scalars as path tables (E7) against section 6.5
+    from . import folding
+    nf = folding.check(rep, F)
+    rep.floor("folding cases decided", nf, 36)
     rep.extra["escape_table"] = {("\\" + (chr(k) if k > 32 else "x%02x" % k)): "U+%04X" % v for k, v in sorted(named.items())}
     rep.extra["hex_lengths"] = {"\\" + chr(k): v for k, v in sorted(hexlen.items())}
     return rep
